@@ -53,4 +53,16 @@ class DownChunkingPlugin(Plugin):
                     f"Plugin {self.__class__.__name__} should yield (dict of) "
                     "strax.Chunk in compute method."
                 )
+            # The yielded chunks are subject to the same contract as any other output
+            if isinstance(_result, dict):
+                named = _result.items()
+            else:
+                named = [(self.provides[0], _result)]
+            for d, v in named:
+                if v.data_type != d:
+                    raise ValueError(
+                        f"{self.__class__.__name__} returned a Chunk with data_type "
+                        f"{v.data_type} instead of {d}."
+                    )
+                self._check_dtype(v.data, d)
             yield self.superrun_transformation(_result, superrun, subruns)
